@@ -20,3 +20,11 @@ func dbgCallees(c *Ctx, fn string) {
 		}
 	}
 }
+
+func dbgArith(c *Ctx) {
+	for _, f := range c.FuncSeq {
+		if c.arithOld(f) {
+			println("arith:", c.Name(f))
+		}
+	}
+}
